@@ -35,6 +35,20 @@ pub fn replay_set(rep: &mut Report, rec: &J) {
 	rep.count("kind_set_vectors");
 	for route in 0..3 {
 		let s = build(&rec["s"], route);
+		// a rendering into a sink that fails half-way, on this thread, right before the renderings that are compared
+		{
+			use std::fmt::Write;
+			struct Tiny(usize);
+			impl Write for Tiny {
+				fn write_str(&mut self, t: &str) -> std::fmt::Result {
+					if t.len() > self.0 { self.0 = 0; Err(std::fmt::Error) } else { self.0 -= t.len(); Ok(()) }
+				}
+			}
+			let other = s | Kind::Array | Kind::Null | Kind::Object;
+			let _ = write!(Tiny(3 + route), "{}", other.as_disjunction());
+			let _ = write!(Tiny(5), "{}", other.as_conjunction());
+			let _ = write!(Tiny(2), "{}", other);
+		}
 		let obs = json!({"len": s.len(), "empty": s.is_empty(), "display": s.to_string(),
 			"disj": s.as_disjunction().to_string(), "conj": s.as_conjunction().to_string(), "members": members(s)});
 		let exp = json!({"len": rec["len"], "empty": rec["empty"], "display": pieces(&rec["display"]),
@@ -45,6 +59,20 @@ pub fn replay_set(rep: &mut Report, rec: &J) {
 		}
 		if let Some(r) = iter_routes(&|| s.iter(), &|k| json!(kind_no(k))) {
 			rep.mismatch("C20.iter", json!({"what": "consuming the set's iterator this way does not give the kinds next() gives", "vector": rec, "route": r}));
+		}
+		// format specifications (width, precision, alignment, alternate) apply to the rendering as a whole or not at all:
+		// the text is the documented one, possibly padded / truncated as one string - never reshaped piece by piece
+		{
+			let plain = [s.to_string(), s.as_disjunction().to_string(), s.as_conjunction().to_string()];
+			let wide = [format!("{:24}", s), format!("{:24}", s.as_disjunction()), format!("{:>24}", s.as_conjunction())];
+			let alt = [format!("{:#}", s), format!("{:#}", s.as_disjunction()), format!("{:#}", s.as_conjunction())];
+			let prec = [format!("{:.3}", s), format!("{:.3}", s.as_disjunction()), format!("{:.3}", s.as_conjunction())];
+			for i in 0..3 {
+				let p3: String = plain[i].chars().take(3).collect();
+				if wide[i].trim() != plain[i] || alt[i] != plain[i] || (prec[i] != plain[i] && prec[i] != p3) {
+					rep.mismatch("C20.set", json!({"what": "a format specification reshapes the rendering piece by piece", "vector": rec, "plain": plain[i], "width_24": wide[i], "alternate": alt[i], "precision_3": prec[i]}));
+				}
+			}
 		}
 		// all() and none()
 		if (s == KindSet::all()) != (rec["len"] == 6) || (s == KindSet::none()) != (rec["len"] == 0) {
